@@ -15,6 +15,7 @@ type Fault struct {
 	Arg    int    `json:"arg"`   // short/torn: prefix length; powerloss: variant seed
 }
 
+//go:norace
 func (f Fault) String() string {
 	return fmt.Sprintf("step=%d %s#%d %s(%d)", f.StepID, f.Class, f.Nth, f.Kind, f.Arg)
 }
@@ -37,6 +38,8 @@ type Snapshot struct {
 }
 
 // AsFault is the explicit fault that reproduces this snapshot.
+//
+//go:norace
 func (s *Snapshot) AsFault() Fault {
 	return Fault{StepID: s.StepID, Class: "fmp", Nth: s.FMP, Kind: s.Kind, Arg: s.Arg}
 }
@@ -68,9 +71,12 @@ type FaultPlan struct {
 	mmapPre      []byte
 }
 
+//go:norace
 func (p *FaultPlan) beginStep() { p.classN = map[string]int{} }
 
 // tornCuts proposes prefix lengths for a write of n bytes.
+//
+//go:norace
 func tornCuts(n int, max int, r *Rng) []int {
 	if n <= 1 || max == 0 {
 		return nil
@@ -115,8 +121,9 @@ func tornCuts(n int, max int, r *Rng) []int {
 	return cuts
 }
 
+//go:norace
 func (p *FaultPlan) at(w *World, class, path string, off int64, data []byte, mutating bool, ino *Inode) Action {
-	if p == nil {
+	if p == nil || (len(p.Faults) == 0 && p.Policy == nil) {
 		return Action{}
 	}
 	if p.classN == nil {
@@ -181,6 +188,8 @@ func (p *FaultPlan) at(w *World, class, path string, off int64, data []byte, mut
 
 // snap takes one image.  The image reflects the state *before* the operation
 // at this FMP, except for "torn", which additionally holds a prefix of it.
+//
+//go:norace
 func (p *FaultPlan) snap(w *World, kind string, arg int, class, path string, off int64, data []byte, ino *Inode, fmp int) {
 	over := map[*Inode][]byte{}
 	if p.mmapOverride != nil {
@@ -246,6 +255,8 @@ func (p *FaultPlan) snap(w *World, kind string, arg int, class, path string, off
 }
 
 // SnapNow takes a crash image of the present state (e.g. at the end of a run).
+//
+//go:norace
 func (w *World) SnapNow(kind string, arg int) {
 	w.Disk.flushMmapStores("snapnow")
 	w.Faults.snap(w, kind, arg, "now", "", 0, nil, nil, -1)
